@@ -350,3 +350,130 @@ Proof.
   - intros pk' H. apply good_to_sdk; auto.
 Qed.
 End C2.
+
+(** * run level: what the reference network delivers, the simulator delivers *)
+Section C3.
+Context {key : Type}.
+Variable mac : key -> N -> N -> N -> N -> N -> N.
+
+Lemma existsb_peer_upd l k x :
+  existsb i_peer l = false -> i_peer x = false -> existsb i_peer (upd l k x) = false.
+Proof.
+  revert k. induction l as [|a l IH]; intros k H Hx; [rewrite upd_nil; reflexivity|].
+  cbn [existsb] in H. apply orb_false_iff in H. destruct H as (H1 & H2).
+  destruct k; [cbn; rewrite Hx; exact H2|]. rewrite upd_cons_S. cbn [existsb]. rewrite H1. apply IH; assumption.
+Qed.
+
+Lemma seg_upd_peer i inf h : i_peer (seg_upd i inf h) = i_peer inf.
+Proof. unfold seg_upd. destruct (negb (i =? 0) && negb (i_cons inf)); reflexivity. Qed.
+Lemma seg_chain_peer inf h : i_peer (seg_chain inf h) = i_peer inf.
+Proof. unfold seg_chain. destruct (i_cons inf); reflexivity. Qed.
+
+(** a good forwarding step keeps the path's shape and introduces no PEERING flag *)
+Lemma good_step_preserves t ia K now i pk e pk' :
+  good_step mac t ia K now i pk (AFwd e) pk' ->
+  uses_peering (k_path pk) = false ->
+  p_lens (k_path pk') = p_lens (k_path pk) /\ p_hops (k_path pk') = p_hops (k_path pk)
+  /\ uses_peering (k_path pk') = false.
+Proof.
+  intros G Sp. unfold uses_peering in *.
+  inversion G; subst; cbn [k_path p_lens p_hops p_infos] in *; refine (conj eq_refl (conj eq_refl _)).
+  - apply existsb_peer_upd; [apply existsb_peer_upd; [exact Sp|]|];
+      rewrite ?seg_chain_peer, ?seg_upd_peer; assumption.
+  - apply existsb_peer_upd; [apply existsb_peer_upd; [exact Sp|]|];
+      rewrite ?seg_chain_peer, ?seg_upd_peer; try assumption.
+    eapply no_peer_flag; eauto.
+Qed.
+
+Lemma ref_sim_complete fuel t now : wf_topo t = true ->
+  forall ia i pk rtr x rpk,
+  lens_two (p_lens (k_path pk)) -> sum_nat (p_lens (k_path pk)) = length (p_hops (k_path pk)) ->
+  uses_peering (k_path pk) = false ->
+  ref_sim mac fuel t now ia i pk = (rtr, RDelivered x, rpk) ->
+  exists tr, sdk_sim mac fuel t now ia i pk = (tr, EndVerdict, rpk)
+             /\ fwd_of_steps tr = rtr
+             /\ exists pre il, tr = pre ++ [mkStep x il ALocal].
+Proof.
+  intros W. induction fuel as [|f IH]; intros ia i pk rtr x rpk L2 Hs Sp R; cbn [ref_sim sdk_sim] in *.
+  - inversion R.
+  - destruct (find_as t ia) as [a|] eqn:Ea; [|inversion R].
+    destruct (sdk_step_complete mac t ia (a_key a) now i pk W L2 Hs Sp) as (CF & CL).
+    destruct (ref_to_good mac t ia (a_key a) now i pk W L2 Hs Sp) as (GF & _).
+    destruct (ref_step mac t ia (a_key a) now i pk) as [eg pk1|pk1| |why] eqn:Er; try (inversion R; fail).
+    + (* forward *)
+      rewrite (CF _ _ eq_refl).
+      destruct (good_step_preserves _ _ _ _ _ _ _ _ (GF _ _ eq_refl) Sp) as (P1 & P2 & P3).
+      destruct (scion_link t ia eg) as [l|]; [|inversion R].
+      destruct (get_peer l ia) as [[ia' if']|]; [|inversion R].
+      destruct (ref_sim mac f t now ia' if' pk1) as [[rtr1 rend1] rpk1] eqn:R1.
+      inversion R; subst rtr rend1 rpk; clear R.
+      assert (L2' : lens_two (p_lens (k_path pk1))) by (rewrite P1; exact L2).
+      assert (Hs' : sum_nat (p_lens (k_path pk1)) = length (p_hops (k_path pk1))) by (rewrite P1, P2; exact Hs).
+      destruct (IH ia' if' pk1 rtr1 x rpk1 L2' Hs' P3 R1) as (tr1 & S1 & F1 & pre & il & Et).
+      (* the next AS exists: the reference run continued there and delivered *)
+      assert (Hfa : exists a', find_as t ia' = Some a').
+      { destruct f; cbn [ref_sim] in R1; [inversion R1|]. destruct (find_as t ia'); [eauto|inversion R1]. }
+      destruct Hfa as (a' & Hfa). rewrite Hfa, S1.
+      exists (mkStep ia i (AFwd eg) :: tr1). refine (conj eq_refl (conj _ _)).
+      * unfold fwd_of_steps in *. cbn [flat_map s_act s_ia s_if app]. rewrite F1. reflexivity.
+      * exists (mkStep ia i (AFwd eg) :: pre), il. rewrite Et. reflexivity.
+    + (* deliver *)
+      rewrite (CL _ eq_refl). inversion R; subst; clear R.
+      exists [mkStep x i ALocal]. refine (conj eq_refl (conj eq_refl _)). exists [], i. reflexivity.
+Qed.
+End C3.
+
+(** * a global sufficient condition for [run_scope] *)
+Section C4.
+Context {key : Type}.
+Variable mac : key -> N -> N -> N -> N -> N -> N.
+
+Lemma iface_not_peer (t : topology key) ia e ty up :
+  no_peer_links t = true -> iface_state t ia e = Some (ty, up) -> rlt_eqb ty ToPeer = false.
+Proof.
+  unfold no_peer_links, iface_state, scion_link. intros NP H.
+  destruct (find _ (t_links t)) as [l|] eqn:F; [|discriminate].
+  apply find_some in F. destruct F as (Hin & _).
+  rewrite forallb_forall in NP. specialize (NP l Hin).
+  unfold get_link_type in H.
+  destruct (l_a l =? ia); [|destruct (l_b l =? ia); [|discriminate]];
+    inversion H; subst; destruct (l_ty l); try discriminate; vm_compute; reflexivity.
+Qed.
+
+Lemma step_scope_global (t : topology key) ia i p :
+  no_peer_links t = true -> uses_peering p = false -> start_scope i p = true ->
+  step_scope t ia i p = true.
+Proof.
+  intros NP Sp St. unfold step_scope. rewrite Sp. cbn [negb andb].
+  unfold start_scope in St.
+  destruct (seg_index (p_lens p) (p_ch p)) as [[[seg st] en]|]; [|reflexivity].
+  destruct en; [|reflexivity].
+  destruct (length (p_hops p) <=? p_ch p + 1)%nat; [reflexivity|].
+  rewrite orb_false_r in St. rewrite St. cbn [andb].
+  destruct (nth_error (p_hops p) (S (p_ch p))); [|reflexivity].
+  destruct (nth_error (p_infos p) (S seg)); [|reflexivity].
+  destruct (iface_state t ia i) as [[a ua]|] eqn:Ea; [|reflexivity].
+  destruct (iface_state t ia (hop_egress h i0)) as [[b ub]|] eqn:Eb; [|reflexivity].
+  unfold involves_peer. rewrite (iface_not_peer t ia i a ua NP Ea), (iface_not_peer t ia _ b ub NP Eb). reflexivity.
+Qed.
+
+Lemma run_scope_global fuel (t : topology key) now : wf_topo t = true -> no_peer_links t = true ->
+  forall ia i pk,
+  path_ok (k_path pk) -> uses_peering (k_path pk) = false -> start_scope i (k_path pk) = true ->
+  run_scope mac fuel t now ia i pk = true.
+Proof.
+  intros W NP. induction fuel as [|f IH]; intros ia i pk P Sp St; [reflexivity|].
+  cbn [run_scope]. pose proof (step_scope_global t ia i (k_path pk) NP Sp St) as Sc. rewrite Sc. cbn [andb].
+  destruct (find_as t ia) as [a|]; [|reflexivity].
+  destruct (sdk_route mac t ia (a_key a) now i pk) as [act pk1] eqn:Er.
+  destruct act; try reflexivity.
+  destruct (scion_link t ia eg) as [l|] eqn:El; [|reflexivity].
+  destruct (get_peer l ia) as [[ia' if']|] eqn:Ep; [|reflexivity].
+  pose proof (sdk_to_good mac t ia (a_key a) now i pk _ _ W P Sc Er) as G. cbn in G.
+  destruct (good_step_preserves mac _ _ _ _ _ _ _ _ G Sp) as (P1 & P2 & P3).
+  apply IH.
+  - destruct P as (Q1 & Q2). split; [rewrite P1; exact Q1|rewrite P1, P2; exact Q2].
+  - exact P3.
+  - unfold start_scope. rewrite (get_peer_nonzero t ia eg l ia' if' W El Ep). reflexivity.
+Qed.
+End C4.
